@@ -173,8 +173,10 @@ def main():
         lazy = rng.random() < 0.4
         ds, arrays, (ga, gd, gmaps), (cols, rows) = build(rng, lazy)
         stats["datasets"] += 1
-        plain = BaseHandler(ds)
-        inner = Seen(BaseHandler(ds))
+        gz = rng.random() < 0.3            # the handler may compress its responses (a deployment setting)
+        stats["gzip_handlers"] = stats.get("gzip_handlers", 0) + gz
+        plain = BaseHandler(ds, gzip=gz)
+        inner = Seen(BaseHandler(ds, gzip=gz))
 
         def spy(dataset, *args):
             return ("spy", args)
